@@ -42,6 +42,8 @@ fn usage() -> i32 {
 macro_rules! dispatch {
     ($id:expr, $f:ident, $($arg:expr),*) => {
         match $id {
+            "C04" => $f(&props::c04::C04, $($arg),*),
+            "C05" => $f(&props::c05::C05, $($arg),*),
             "C06" => $f(&props::c06::C06, $($arg),*),
             other => {
                 println!("HARNESS-ERROR unknown property {other}");
